@@ -197,9 +197,12 @@ def single_faults(toks):
         other = next((n for n in names if n != v), None)
         if other is not None:
             yield ("rename-end", f"</{v}> -> </{other}> (token {i})", render(toks[:i] + [["close", other]] + toks[i + 1:]))
-        # white space inside the brackets where no markup language allows it: '< /A>' and '</ A>' are not end tags
-        yield ("rename-end", f"</{v}> -> < /{v}> (token {i})", render(toks[:i] + [["text", f"< /{v}>"]] + toks[i + 1:]))
-        yield ("rename-end", f"</{v}> -> </ {v}> (token {i})", render(toks[:i] + [["text", f"</ {v}>"]] + toks[i + 1:]))
+        if i and toks[i - 1][0] != "text":
+            # an *aggregate's* end tag with white space inside the brackets where no markup language allows it:
+            # '< /A>' and '</ A>' are not end tags, so the aggregate stays open.  (Not applied to the optional end
+            # tag of a data element: what a parser makes of such debris after a value is not the property's subject.)
+            yield ("rename-end", f"</{v}> -> < /{v}> (token {i})", render(toks[:i] + [["text", f"< /{v}>"]] + toks[i + 1:]))
+            yield ("rename-end", f"</{v}> -> </ {v}> (token {i})", render(toks[:i] + [["text", f"</ {v}>"]] + toks[i + 1:]))
         yield ("dup-end", f"duplicate </{v}> (token {i})", render(toks[:i + 1] + [["close", v]] + toks[i + 1:]))
         yield ("stray-text", f"text after </{v}> (token {i})", render(toks[:i + 1] + [["text", "junk"]] + toks[i + 1:]))
     for a, b in zip(idx, idx[1:]):
